@@ -204,11 +204,13 @@ def gen(N, operands, unaries, binops, maxspans=1, funcs=(), bare_single=False, f
     ss = span_sets(N, maxspans)
     for ops in itertools.product(operands, repeat=N):
         if first is not None and ops[0] is not operands[first[0]]:
-            continue            # `first` = (index of the first operand, index of its unary prefix): one slice of the family
+            continue            # `first` = (index of the first operand, of its unary prefix, of the first operator): one slice
         for us in itertools.product(unaries, repeat=N):
             if first is not None and us[0] is not unaries[first[1]]:
                 continue
             for bs in itertools.product(binops, repeat=N - 1):
+                if first is not None and len(first) > 2 and (bs[0] is not binops[first[2]] if N > 1 else first[2] != 0):
+                    continue
                 for spans in ss:
                     heads_options = []
                     ok = True
@@ -420,7 +422,7 @@ def _slice(task):
         V.merge(vr)
         del buf[:]
     for (N, operands, unaries, binops, maxspans, funcs) in specs:
-        if first[0] >= len(operands) or first[1] >= len(unaries):
+        if first[0] >= len(operands) or first[1] >= len(unaries) or first[2] >= len(binops):
             continue
         for t in gen(N, operands, unaries, binops, maxspans, funcs, first=first):
             n += 1
@@ -462,7 +464,7 @@ def run(ctx):
     for label, specs, nospace in jobs:
         nop = max(len(sp[1]) for sp in specs)
         nun = max(len(sp[2]) for sp in specs)
-        tasks = common.shard([(specs, nospace, (a, b)) for a in range(nop) for b in range(nun)], ctx.seed)
+        tasks = common.shard([(specs, nospace, (a, b, c)) for a in range(nop) for b in range(nun) for c in range(len(BINOPS))], ctx.seed)
         res = pool.pmap(_slice, tasks, chunk=1, timeout=7200)
         n0 = stats["checked"]
         ntok = 0
